@@ -113,8 +113,33 @@ def canon_msgs(messages):
     return out
 
 
+class FixerObs(dict):
+    """what was observed of a fixer.  The public surface is `fixes` (a total) and `messages`; the split into errors
+    and warnings is compared only when it can be observed — against a side that has the split, a side that has only
+    the total is compared by the total"""
+
+    def __eq__(self, other):
+        if not isinstance(other, dict):
+            return NotImplemented
+        a, b = dict(self), dict(other)
+        if ("errors" in a) != ("errors" in b):
+            for d in (a, b):
+                if "errors" in d:
+                    d["fixes"] = d.pop("errors") + d.pop("warnings")
+        return a == b
+
+    def __ne__(self, other):
+        r = self.__eq__(other)
+        return r if r is NotImplemented else not r
+
+    __hash__ = None
+
+
 def canon_fixer(f):
-    return {"errors": f._errors, "warnings": f._warnings, "msgs": canon_msgs(f.messages)}
+    e, w = getattr(f, "_errors", None), getattr(f, "_warnings", None)
+    if isinstance(e, int) and isinstance(w, int):
+        return FixerObs({"errors": e, "warnings": w, "msgs": canon_msgs(f.messages)})
+    return FixerObs({"fixes": f.fixes, "msgs": canon_msgs(f.messages)})
 
 
 # --------------------------------------------------------------------------- canonical results
@@ -244,6 +269,13 @@ ONOFF_SPELL = ONOFF_SPELL + BOOL_CASES
 NATIVE = [None, 0, 1, 2, -3, 1.5, 0.0, -0.0, 1.0, float("nan"), float("inf"), True, False,
           datetime.datetime(2020, 1, 2), datetime.datetime(2020, 1, 2, 3, 4, 5, 6), datetime.date(2020, 1, 2),
           datetime.time(1, 2), 10 ** 20, 1 / 3, 0.1 + 0.2, 960.3363318270713]
+try:        # numpy scalars that ARE Python floats / strings (np.float64, np.str_), and a zone-aware datetime
+    import numpy as _np
+    NATIVE = NATIVE + [_np.float64(2.5), _np.float64(1.0), _np.float64("nan"), _np.str_("7"), _np.str_(" NaN "),
+                       datetime.datetime(2020, 1, 2, 3, 4, 5, tzinfo=datetime.timezone.utc),
+                       datetime.datetime(2020, 1, 2, 3, 4, 5, tzinfo=datetime.timezone(datetime.timedelta(hours=-3, minutes=-30)))]
+except ImportError:
+    pass
 
 
 def rand_text(rng, alpha=TEXT_ALPHA, lo=0, hi=6):
